@@ -125,13 +125,19 @@ def run(ctx):
     for args, kwargs, r, node in h.i1d:
         ctx.expect(not kwargs, 'AXIS', 'ConvolvedFluxes.interpolate interp1d options', loc(fi, node.lineno), 'scipy defaults: linear, exact at knots, error outside',
                    'non-default options %s change the interpolant or silence out-of-range requests' % sorted(kwargs), 'interp1d-options')
-    # single aperture: repeat with rows = models
-    rep = [c for c in calls(fi.node) if up(c.func).endswith('.reshape') and 'np.repeat' in up(c)]
-    import re as _re
-    ok = len(rep) >= 2 and all(_re.match(r'^\w+\.n_models$', up(c.args[0])) and _re.match(r'^len\(\w+(\.apertures)?\)$', up(c.args[1])) for c in rep if len(c.args) == 2) \
-        and any('%s.flux' % fi.params[0] in up(c) for c in rep) and any('%s.error' % fi.params[0] in up(c) for c in rep)
-    ctx.expect(ok, 'CFG-7', 'ConvolvedFluxes.interpolate single-aperture repeat', where_, 'np.repeat(table, n).reshape(n_models, n) for flux and error',
-               'single-aperture branch: %s' % [up(c)[:80] for c in rep], 'repeat-shape')
+    # single aperture: interpreted with the table holding one aperture; every request (inside, above or below) gets the one tabulated value
+    hs = H(single=True)
+    Is = Interp(repo, hs)
+    outs = Is.call(fi, [symarr('q', (D,), unit=au)], selfv=mk())
+    if not isinstance(outs, Obj):
+        ctx.undecided('CFG-7', 'ConvolvedFluxes.interpolate single-aperture repeat', where_, 'result not modelled: %r' % (outs,))
+    else:
+        for attr, tab in (('_flux', sym('flux', M, A)), ('_error', sym('err', M, A))):
+            compare(ctx, 'CFG-7', 'ConvolvedFluxes.interpolate single-aperture %s' % attr.lstrip('_'), where_, outs.attrs.get(attr), mk_fn('at', B(A, tab), P(Poly())), (M, D), vocab=VOCAB, fns=FNS,
+                    findings=[f for f in Is.findings if f.kind == 'label-clash'], detail_ok='every requested radius gets the single tabulated %s of the model' % attr.lstrip('_'))
+        gs = [g for g in Is.assumed if g[4] == 'raise-guard']
+        ctx.expect(not gs, 'CFG-7', 'ConvolvedFluxes.interpolate single-aperture table accepts every radius', where_, 'no request is refused when the table has one aperture',
+                   'a single-aperture table refuses requests: raise guarded by %s' % (gs[0][2] if gs else ''), 'single-refuses')
 
     # ---------------- SED.interpolate
     fs = ctx.fn(repo.func('sed.sed', 'SED.interpolate'))
@@ -245,6 +251,10 @@ def check_variable(ctx):
 CF = 'sedfitter/convolved_fluxes/convolved_fluxes.py'
 SE = 'sedfitter/sed/sed.py'
 MUST_FIRE = [
+    ('range check applied to single-aperture tables too', [(CF, "        if self.n_ap > 1:\n\n            # If any apertures are larger than the defined max, reset to max\n            if np.any(c.apertures > self.apertures.max()):\n                apertures[c.apertures > self.apertures.max()] = self.apertures.max()\n\n            # If any apertures are smaller than the defined min, raise error\n            if np.any(c.apertures < self.apertures.min()):\n                raise Exception(\"Aperture(s) requested too small\")\n",
+                                                               "        if np.any(c.apertures < self.apertures.min()):\n            raise Exception(\"Aperture(s) requested too small\")\n\n        if self.n_ap > 1:\n\n            # If any apertures are larger than the defined max, reset to max\n            if np.any(c.apertures > self.apertures.max()):\n                apertures[c.apertures > self.apertures.max()] = self.apertures.max()\n")]),
+    ('single-aperture repeat reshaped the other way round', [(CF, "c.flux = np.repeat(self.flux, len(c.apertures)).reshape(c.n_models, len(c.apertures))", "c.flux = np.repeat(self.flux, len(c.apertures)).reshape(len(c.apertures), c.n_models).T")]),
+    ('single-aperture error repeats the flux', [(CF, "c.error = np.repeat(self.error, len(c.apertures))", "c.error = np.repeat(self.flux, len(c.apertures))")]),
     ('clamp removed', [(CF, "            if np.any(c.apertures > self.apertures.max()):\n                apertures[c.apertures > self.apertures.max()] = self.apertures.max()\n", "")]),
     ('clamp to min()', [(CF, "apertures[c.apertures > self.apertures.max()] = self.apertures.max()", "apertures[c.apertures > self.apertures.max()] = self.apertures.min()")]),
     ('raise removed', [(CF, "            if np.any(c.apertures < self.apertures.min()):\n                raise Exception(\"Aperture(s) requested too small\")\n", "")]),
@@ -267,6 +277,8 @@ MUST_FIRE = [
                                                "        if np.any(apertures < sed_apertures.min()):\n            raise Exception(\"Aperture(s) requested too small\")\n\n        result = flux_interp(apertures)\n        apertures[apertures > sed_apertures.max()] = sed_apertures.max()\n        return result")]),
 ]
 MUST_SILENT = [
+    ('single-aperture repeat with the request length in a temporary', [(CF, "            c.flux = np.repeat(self.flux, len(c.apertures)).reshape(c.n_models, len(c.apertures))\n            c.error = np.repeat(self.error, len(c.apertures)).reshape(c.n_models, len(c.apertures))",
+                                                                          "            n_new = len(c.apertures)\n            c.flux = np.repeat(self.flux, n_new).reshape(self.n_models, n_new)\n            c.error = np.repeat(self.error, n_new).reshape(self.n_models, n_new)")]),
     ('clamp through np.minimum-free rewrite: mask variable', [(CF, "                apertures[c.apertures > self.apertures.max()] = self.apertures.max()", "                too_big = c.apertures > self.apertures.max()\n                apertures[too_big] = self.apertures.max()")]),
     ('table maximum via a temporary', [(SE, "        apertures[apertures > sed_apertures.max()] = sed_apertures.max()\n\n        # If any apertures are smaller than the defined min, raise Exception\n        if np.any(apertures < sed_apertures.min()):",
                                             "        ap_max = sed_apertures.max()\n        apertures[apertures > ap_max] = ap_max\n\n        # If any apertures are smaller than the defined min, raise Exception\n        if np.any(apertures < sed_apertures.min()):")]),
